@@ -168,6 +168,8 @@ def _build(node, owned=None):
         for M in Ms[1:]:
             out = out @ M
         return out
+    if k == "Routine":
+        return _routine(node, _build(node["arg"], owned))
     if k == "Sliced":
         A = _build(node["arg"], owned)
         s0 = to_index(node["slices"][0], A.shape[0])
@@ -221,3 +223,36 @@ def _build(node, owned=None):
     if k == "Concatenated":
         return ops.Concatenated(*Ms, axis=node["axis"])
     raise ValueError(f"unknown kind {k}")
+
+
+def _routine(node, A):
+    """The object a public cola routine returns for the operator A (to be used as an operand of further algebra)."""
+    from cola.linalg import CG, GMRES, LU, Arnoldi, Auto, Cholesky, Lanczos
+    from cola.linalg.inverse.pinv import LSTSQ
+    from cola.linalg.unary.unary import Eig, Eigh
+    from cola.linalg.decompositions.decompositions import cholesky, plu
+    from cola.linalg.svd.svd import svd
+    fn, an = node["fn"], node.get("alg")
+    n = max(A.shape)
+    alg = {None: None, "Auto": Auto(), "LU": LU(), "Cholesky": Cholesky(), "CG": CG(tol=1e-13, max_iters=50 * n + 50),
+           "GMRES": GMRES(tol=1e-13, max_iters=n), "LSTSQ": LSTSQ(), "Eig": Eig(), "Eigh": Eigh(),
+           "Lanczos": Lanczos(max_iters=n + 2, tol=1e-13), "Arnoldi": Arnoldi(max_iters=n + 2, tol=1e-13)}[an]
+    args = () if alg is None else (alg, )
+    if fn == "inv":
+        return cola.linalg.inv(A, *args)
+    if fn == "pinv":
+        return cola.linalg.pinv(A, *args)
+    if fn == "cholL":
+        return cholesky(A)
+    if fn == "pluprod":
+        Pm, L, U = plu(A)
+        return Pm @ L @ U
+    if fn == "svdprod":
+        U, S_, V = svd(A, min(A.shape), "LM", *args)
+        return U @ S_ @ V.H
+    if fn in ("exp", "log", "sqrt", "isqrt"):
+        return getattr(cola.linalg, fn)(A, *args)
+    if fn.startswith("pow"):
+        a = {"pow2": 2, "pow-1": -1, "pow0.5": 0.5, "pow3": 3}[fn]
+        return cola.linalg.pow(A, a, *args)
+    raise ValueError(fn)
